@@ -199,6 +199,73 @@ class NumberPolicy(Policy):
         return err(Tok("O", "parse-int-error"))
 
 
+def number_witness(prog):
+    """`number()` on concrete digit strings (digit1 answers the text itself, str::parse::<u64> as documented): returns
+    [(text, expected, got)] for every text on which the outcome is not `Ok(value)` for value <= MAX_SAFE_INTEGER,
+    MaxIntError(value) above it, ParseIntError beyond u64. Used when the abstract table is inconclusive (hand-written
+    digit handling); a mismatch is a genuine violation."""
+    from .interp import StrV
+    from .models import concrete_u64_parse
+    key = "number"
+    mx = prog.consts.get("MAX_SAFE_INTEGER", 900719925474099)
+    texts = ["0", "7", "10", "007", "99999999999999", "100000000000000", "123456789012345", str(mx - 1), str(mx), str(mx + 1),
+             "9" * 15, "1" + "0" * 15, "18446744073709551615", "18446744073709551616", "9" * 20, "0" * 25 + "1", "1" + "0" * 25]
+    out, ran = [], 0
+    for text in texts:
+        class Pol(NumberPolicy):
+            def apply(pself, interp, p, inp):
+                if p.kind == "prim" and p.extra == "digit1":
+                    c, path = interp.deref(inp)
+                    interp.write(c, path, Tok("T", "after-digits", "", dom="text"))
+                    return ok(StrV(text))
+                return NumberPolicy.apply(pself, interp, p, inp)
+
+            def str_parse(pself, interp, args, info):
+                return concrete_u64_parse(interp, args, info)
+        ctx = Ctx()
+        pol = Pol(prog, ctx, "ok", 0)
+        pol.witness = True
+        it = Interp(prog, pol, ctx=ctx)
+        try:
+            r = it.call_body(key, [Ptr(Cell(Tok("T", "start", "", dom="text")))])
+        except Panic as p:
+            out.append((text, "no panic", "panics: %s" % p))
+            ran += 1
+            continue
+        except Inconclusive:
+            continue
+        ran += 1
+        n = int(text)
+        if n <= mx:
+            exp = ("ok", n)
+        elif n < (1 << 64):
+            exp = ("err", "MaxIntError", n)
+        else:
+            exp = ("err", "ParseIntError", None)
+        got = None
+        if isinstance(r, Adt) and r.name == "std::result::Result":
+            if r.variant == 0:
+                v = r.fields[0]
+                v = v.val + v.off if isinstance(v, Tok) and v.kind == "I" else v
+                got = ("ok", v)
+            else:
+                try:
+                    d = decode_number(prog, it, r)
+                    payload = None
+                    m = it.strip(r.fields[0].fields[0])
+                    f = dict(zip(prog.field_names(SPE), m.fields))
+                    kk = it.strip(f["kind"].fields[0]) if is_some(f["kind"]) else None
+                    if kk is not None and kk.fields:
+                        pv = it.strip(kk.fields[0])
+                        payload = pv.val + pv.off if isinstance(pv, Tok) and pv.kind == "I" else (pv if isinstance(pv, int) else None)
+                    got = ("err", d[3], payload if d[3] == "MaxIntError" else None)
+                except Inconclusive:
+                    continue
+        if got != exp:
+            out.append((text, exp, got))
+    return out, ran
+
+
 def number_table(prog):
     rows = []
     key = "number"
